@@ -329,8 +329,14 @@ Part(tk) ==
                                    ELSE IF Overlaps THEN C13_2D_OV(tk) ELSE C13_2D(tk)
     [] Family = "c06" /\ ND = 1 -> C01_1D(tk) @@ C02_1D(tk) @@ C03_1D(tk) @@ C11_1D(tk)
     [] Family = "c06" /\ ND > 1 -> IF HasY THEN C06_2D(tk) @@ C01_2D_Y(tk) ELSE C06_2D(tk)
-    [] Family = "c04" /\ ND = 1 -> IF HasY THEN C04_1D(tk) @@ C01_1D_Y(tk) ELSE C04_1D(tk)
-    [] Family = "c04" /\ ND > 1 -> IF HasY THEN C04_2D(tk) @@ C01_2D_Y(tk) ELSE C04_2D(tk)
+    \* C04 names every measure "defined for a subtotal": the errors, residuals, scale
+    \* statistics and population estimates ride along with the counts and proportions
+    [] Family = "c04" /\ ND = 1 ->
+         IF HasY THEN C04_1D(tk) @@ C01_1D_Y(tk)
+         ELSE C04_1D(tk) @@ C11_1D(tk) @@ C14_1D(tk) @@ C17_1D(tk)
+    [] Family = "c04" /\ ND > 1 ->
+         IF HasY THEN C04_2D(tk) @@ C01_2D_Y(tk)
+         ELSE C04_2D(tk) @@ C11_2D(tk) @@ C12_2D(tk) @@ C14_2D(tk) @@ C17_2D(tk)
 
 \* layout of the partition, for the harness' mismatch signatures and label mapping
 Aux(tk) ==
